@@ -807,6 +807,7 @@ def run(ck):
     cli_stream(ck, pki, devices, scratch)
     side_streams(ck, drv)
     dcd_streams(ck, drv)
+    oversize_stream(ck, pki, scratch)
 
 
 SECTION_NAMES = {20: ("SEC_CSF_HEADER", "Header"), 21: ("SEC_CSF_INSTALL_SRK", "InstallSRK"), 22: ("SEC_CSF_INSTALL_CSFK", "InstallCSFK"),
@@ -902,6 +903,72 @@ def cli_stream(ck, pki, devices, scratch):
             want = seg.export()
             same = data is not None and data == want
             sc.expect(same, cid, f"`nxpimage hab parse` does not write the builder's {seg_name.label} segment", None if data is None else len(data), len(want))
+
+
+def oversize_stream(ck, pki, scratch):
+    """one deterministic configuration whose CSF data blocks alone exceed CSF_SIZE: 4 x RSA-4096 SRK table and an IMG certificate carrying a
+    6000-byte extension (open finding C07-csf-oversize-silent), next to the same configuration with the ordinary IMG certificate"""
+    from cryptography import x509
+    from cryptography.hazmat.primitives import hashes
+    from cryptography.x509.oid import NameOID, ObjectIdentifier
+    from spsdk.image.hab.hab_container import HabContainer
+    so = ck.stream("csf_size", "authenticated container (IVT offset 0x1000, initial load size 0x2000, 1000-byte application, 4 x RSA-4096 SRK table) with the ordinary "
+                   "IMG certificate and with one that carries a 6000-byte extension, so that SRK table + certificates alone exceed CSF_SIZE: the builder refuses "
+                   "(SPSDKError) or the boot-data length equals the real size of the padded image and the CSF ends the image 0x2000 behind its start. "
+                   "non-trivial = distinct configuration")
+    kind = "rsa4096"
+    if kind not in pki.trees:
+        return
+    base = pki.trees[kind]
+    src = 1
+    ent = dict(base[src])
+    sk = ent["srk_key"]
+    n = lambda s: x509.Name([x509.NameAttribute(NameOID.COMMON_NAME, s)])  # noqa: E731
+    img_key = pki._rsa(f"IMG{src + 1}_1_sha256_2048_65537_v3_usr")
+    big = (x509.CertificateBuilder().subject_name(n("IMG_big_usr")).issuer_name(n(f"SRK{src + 1}_{kind}_ca")).public_key(img_key.public_key())
+           .serial_number(0x7777).not_valid_before(datetime(2020, 1, 1, tzinfo=timezone.utc)).not_valid_after(datetime(2040, 1, 1, tzinfo=timezone.utc))
+           .add_extension(x509.BasicConstraints(ca=False, path_length=None), critical=True)
+           .add_extension(x509.UnrecognizedExtension(ObjectIdentifier("1.3.6.1.4.1.99999.1"), bytes(range(256)) * 23 + bytes(112)), critical=False)
+           .sign(sk, hashes.SHA256()))
+    ent["img_cert"] = pki._w(f"crts/{kind}_IMGbig_1_crt.pem", big.public_bytes(pki.ser.Encoding.PEM))
+    ent["img_der"] = big.public_bytes(pki.ser.Encoding.DER)
+    for label, tree_kind in (("ordinary", kind), ("big-extension", kind + "_big")):
+        c = {"i": 0, "family": None, "dev": None, "explicit": True, "ivt": 0x1000, "ils": 0x2000, "start": 0x60000000, "mode": "auth",
+             "app": gen_app(ck.rng, 1000, 0x60002000), "entry": None, "dcd": None, "xmcd": None, "version": "4.2",
+             "kind": tree_kind, "nkeys": 4, "src": src, "img_slot": 2, "engine": "ANY", "extra": "", "nocak": False, "keyloc_csf": "file", "keyloc_img": "file"}
+        try:
+            if tree_kind != kind:
+                pki.trees[tree_kind] = [ent if k == src else e for k, e in enumerate(base)]
+            e = pki.trees[tree_kind][src]
+            table = pki.srk_table(tree_kind, 4).export()
+            # predicate of the finding, from the input alone: the data blocks the configuration names do not fit into CSF_SIZE even without signatures
+            over = len(table) + len(e["csf_der"]) + len(e["img_der"]) > 0x2000
+            cid = {"case": label, "srk_table": len(table), "csf_cert": len(e["csf_der"]), "img_cert": len(e["img_der"]), "ivt": c["ivt"], "ils": c["ils"], "app_len": 1000}
+            so.note(cid, cls=label + ("/oversize" if over else "/fits"))
+            r = pyres(HabContainer.load_from_config, make_config(c, pki, os.path.join(scratch, "wo")))
+        finally:
+            pki.trees.pop(kind + "_big", None)
+        if r[0] == "E:spsdk":
+            so.expect(over, cid, "the builder refused a configuration whose CSF fits", r)
+            continue
+        if r[0] != "ok":
+            so.expect(False, cid, "load_from_config raised a non-SPSDK exception", r)
+            continue
+        img = pyres(r[1].export)
+        if img[0] == "E:spsdk" and over:
+            continue   # refused: the property only speaks about images SPSDK builds
+        if img[0] != "ok":
+            so.expect(False, cid, "export raised", img)
+            continue
+        img = img[1]
+        fid = "C07-csf-oversize-silent" if over else None
+        self_, csfp = struct.unpack_from("<I", img, 20)[0], struct.unpack_from("<I", img, 24)[0]
+        blen = struct.unpack_from("<I", img, 36)[0]
+        so.expect(blen == c["ivt"] + len(img), cid, "boot-data length differs from the real size of the padded image", blen, c["ivt"] + len(img), finding=fid)
+        so.expect(csfp - self_ + 0x2000 == len(img), cid, "the CSF does not end the image 0x2000 behind its start (CSF larger than CSF_SIZE exported)",
+                  (csfp - self_, len(img)), None, finding=fid)
+        pr = pyres(HabContainer.parse, img)
+        so.expect(pr[0] == "ok", cid, "HabContainer.parse raised on an image SPSDK built", pr[0], None, finding=fid)
 
 
 def both_stream(ck, pki, devices, scratch):
